@@ -13,7 +13,7 @@ LEVEL_TEXT = ('Bounded symbolic verification: for each list kind (IPv4 / IPv6 pr
               'the real decoder must satisfy decode(a||b) = decode(a) + decode(b); an unknown TLV between two known ones leaves them '
               'unchanged; permuting the path attributes of an UPDATE does not change what each decodes to.')
 LEVEL_NOTE = 'Pairs: quick = every element shape at least once on each side; thorough = all pairs of the per-kind pools (boundary sub-pool for IPv6). OPEN capability packaging/ordering is decided in C14; BGP-LS NLRI descriptors are not covered (no independent encoder was written).'
-LEVEL_ADDED = 'Also: attribute orders over attributes whose decoding depends on another attribute (BGP-LS per protocol id, EVPN overlay with PMSI), OPEN capability lists in the concatenation law, unknown EVPN route type and zero-length TLVs in the pools, the shortest element twice. Components inside one flowspec rule with operand widths 1/2/4/8; attribute orders with AS4_PATH in both AS modes. AS4_AGGREGATOR in the attribute orders; a 240-octet flowspec rule in the pool.'
+LEVEL_ADDED = 'Also: attribute orders over attributes whose decoding depends on another attribute (BGP-LS per protocol id, EVPN overlay with PMSI), OPEN capability lists in the concatenation law, unknown EVPN route type and zero-length TLVs in the pools, the shortest element twice. Components inside one flowspec rule with operand widths 1/2/4/8; attribute orders with AS4_PATH in both AS modes. AS4_AGGREGATOR in the attribute orders; a 240-octet flowspec rule in the pool. IPv4 unicast prefix lists as carried in MP_REACH / MP_UNREACH (their own decoder).'
 TECHNIQUE = 'symbolic execution of the list decoders on a, b and a||b (CrossHair+z3) with element encoders independent of yabgp'
 EXPLANATION = 'C15: concatenation law per list kind, unknown-TLV insertion, attribute permutations.'
 BOUNDS = 'element pools per kind (prefix lengths 0..32 / boundary set of 0..128, route types, TLV types); <= 6 symbolic octets / numbers per obligation'
